@@ -588,6 +588,10 @@ def run_controlled(case: dict, scratch: Path) -> dict:
             kind = "cycle"
         elif outcome == "RuntimeError" and "have already been accessed and therefore cannot set" in msg:
             kind = "rejected"  # a (typed) back edge refused by Node.Inputs.__setattr__ while the workflow is constructed
+        elif "has no attribute 'readonly_caches'" in msg or "Could not find results of" in msg:
+            # LazyField._get_value found no result file for a predecessor's job when a node was started (its diagnostic
+            # text itself fails with AttributeError: `job.readonly_caches`)
+            kind = "lost-input"
         elif ticks >= 11 and outcome not in ("ok", "LIVELOCK", "DEVICE-TIMEOUT") and "Workflow job " not in msg[:40]:
             # raised inside the stall detector (its diagnostic text crashes with TypeError when a node never started)
             kind = "stall"
@@ -895,12 +899,12 @@ def gen_two(rng, nmin=2, nmax=5, shape: dict | None = None) -> dict:
 
 
 def d71(case: dict, obs: dict):
-    """match rule of the known finding D71: a submission over pre-existing results in which some job has to be executed
+    """match rule of the known finding D73: a submission over pre-existing results in which some job has to be executed
     although a result of it is on disk (`rerun`, or an errored result).  (`Ctx.judge` attributes a failed verdict to it
     only if the model of the unchanged code reproduces the whole observation.)"""
     two = case.get("two")
     if two and (two.get("rerun") or two.get("pre_fail")):
-        return "D71"
+        return "D73"
     return None
 
 
@@ -1053,6 +1057,8 @@ def model_view_two(case: dict, ans: dict) -> tuple[dict | None, list]:
                        "dispatched": [tg(j) for j in r["dispatched"]]})
         tables.append(_tables_named(r["tables"], names, True))
     oc = ans.get("outcome") if ans.get("status") == "done" else "MODEL-" + str(ans.get("status"))
+    if ans.get("status") == "crash":
+        oc = "lost-input"  # start() found no result file for a predecessor's job
     if oc == "failedNodes":
         named = sorted(names[n] + ("" if len(jobs[names[n]]) == 1 and jobs[names[n]][0] == names[n] else ".?") for n in ans["named"])
     else:
